@@ -591,7 +591,14 @@ fn order_level(
     if needs_dd && !cmds.is_empty() {
         return None;
     }
-    let split = if use_dd { rng.range(lo, hi) } else { posn.len() };
+    let split = if !use_dd {
+        posn.len()
+    } else if dd == DashDash::IfNeeded {
+        // deterministic, so that two orders of the same atoms keep words on their side
+        hi
+    } else {
+        rng.range(lo, hi)
+    };
 
     // merge named units with the positional units left of the split
     let left_pos = &posn[..split];
@@ -824,28 +831,66 @@ pub fn spell_arg(name_short: Option<char>, name_long: Option<&str>, value: &[u8]
     }
 }
 
-/// Turn ordered units into an argument vector
-pub fn render(units: &[U], rng: &mut Rng, style: SpellStyle) -> Line {
-    let mut line = Line::default();
+/// The argv items produced for a run of consecutive units (one unit, or a short cluster)
+#[derive(Clone, Debug)]
+pub struct Chunk {
+    /// units lo..hi are spelled by this chunk
+    pub lo: usize,
+    pub hi: usize,
+    pub items: Vec<Vec<u8>>,
+    /// (unit index, role) per item
+    pub roles: Vec<(usize, Role)>,
+    pub spells: Vec<ArgSpell>,
+    pub cluster: bool,
+}
+
+/// Choose a spelling for every unit; consecutive short flags may be merged into clusters
+pub fn render_chunks(units: &[U], rng: &mut Rng, style: SpellStyle) -> Vec<Chunk> {
+    render_chunks_cfg(units, rng, style, &[])
+}
+
+thread_local! {
+    static NO_MULTI: std::cell::RefCell<Vec<Id>> = std::cell::RefCell::new(Vec::new());
+}
+
+fn no_multi(item: Id) -> bool {
+    NO_MULTI.with(|n| n.borrow().contains(&item))
+}
+
+/// Same, but the listed items never appear in multi-letter short items (`-ab`, `-nVALUE`):
+/// checks other than C02 use it to stay clear of C02's known findings
+pub fn render_chunks_cfg(
+    units: &[U],
+    rng: &mut Rng,
+    style: SpellStyle,
+    avoid_multi: &[Id],
+) -> Vec<Chunk> {
+    NO_MULTI.with(|n| *n.borrow_mut() = avoid_multi.to_vec());
+    let r = render_chunks_inner(units, rng, style);
+    NO_MULTI.with(|n| n.borrow_mut().clear());
+    r
+}
+
+fn render_chunks_inner(units: &[U], rng: &mut Rng, style: SpellStyle) -> Vec<Chunk> {
+    let mut chunks = Vec::new();
     let mut i = 0;
     while i < units.len() {
         let u = &units[i];
-        let org = |role: Role| Origin {
-            unit: i,
-            role,
-            depth: u.depth,
-            block: u.block,
-            after_dd: u.after_dd,
+        let single = |items: Vec<Vec<u8>>, roles: Vec<Role>, spells: Vec<ArgSpell>| Chunk {
+            lo: i,
+            hi: i + 1,
+            roles: roles.into_iter().map(|r| (i, r)).collect(),
+            items,
+            spells,
+            cluster: false,
         };
         match &u.kind {
             UKind::DashDash => {
-                line.argv.push(b"--".to_vec());
-                line.origin.push(org(Role::DashDash));
+                chunks.push(single(vec![b"--".to_vec()], vec![Role::DashDash], vec![]));
                 i += 1;
             }
             UKind::Word { value, .. } => {
-                line.argv.push(value.clone());
-                line.origin.push(org(Role::Word));
+                chunks.push(single(vec![value.clone()], vec![Role::Word], vec![]));
                 i += 1;
             }
             UKind::CmdName { names, shorts, .. } => {
@@ -860,16 +905,20 @@ pub fn render(units: &[U], rng: &mut Rng, style: SpellStyle) -> Line {
                         shorts[k - names.len()].to_string()
                     }
                 };
-                line.argv.push(name.into_bytes());
-                line.origin.push(org(Role::CmdName));
+                chunks.push(single(vec![name.into_bytes()], vec![Role::CmdName], vec![]));
                 i += 1;
             }
-            UKind::Flag { names, .. } => {
+            UKind::Flag { names, item, .. } => {
                 // try to start a cluster
-                if style == SpellStyle::Random && !names.shorts.is_empty() && rng.chance(1, 2) {
+                if style == SpellStyle::Random
+                    && !names.shorts.is_empty()
+                    && !no_multi(*item)
+                    && rng.chance(1, 2)
+                {
                     let mut j = i;
                     let mut body: Vec<u8> = vec![b'-'];
                     let mut tail: Option<Vec<u8>> = None;
+                    let mut spells = Vec::new();
                     let mut members = 0;
                     while j < units.len() && members < 5 {
                         let x = &units[j];
@@ -877,7 +926,9 @@ pub fn render(units: &[U], rng: &mut Rng, style: SpellStyle) -> Line {
                             break;
                         }
                         match &x.kind {
-                            UKind::Flag { names, .. } if !names.shorts.is_empty() => {
+                            UKind::Flag { names, item, .. }
+                                if !names.shorts.is_empty() && !no_multi(*item) =>
+                            {
                                 let c = *rng.pick(&names.shorts);
                                 let mut tmp = [0u8; 4];
                                 body.extend_from_slice(c.encode_utf8(&mut tmp).as_bytes());
@@ -891,8 +942,12 @@ pub fn render(units: &[U], rng: &mut Rng, style: SpellStyle) -> Line {
                                 names,
                                 value,
                                 adjacent_only,
-                                ..
-                            } if !names.shorts.is_empty() && members > 0 && rng.chance(1, 2) => {
+                                item,
+                            } if !names.shorts.is_empty()
+                                && members > 0
+                                && !no_multi(*item)
+                                && rng.chance(1, 2) =>
+                            {
                                 let c = *rng.pick(&names.shorts);
                                 let sps = allowed_spells(names, value, *adjacent_only);
                                 let joined = sps.contains(&ArgSpell::ShortJoined);
@@ -901,13 +956,13 @@ pub fn render(units: &[U], rng: &mut Rng, style: SpellStyle) -> Line {
                                 if joined && (!sep || rng.chance(1, 2)) {
                                     body.extend_from_slice(c.encode_utf8(&mut tmp).as_bytes());
                                     body.extend_from_slice(value);
-                                    line.spells.push(ArgSpell::ShortJoined);
+                                    spells.push(ArgSpell::ShortJoined);
                                     members += 1;
                                     j += 1;
                                 } else if sep {
                                     body.extend_from_slice(c.encode_utf8(&mut tmp).as_bytes());
                                     tail = Some(value.clone());
-                                    line.spells.push(ArgSpell::ShortSep);
+                                    spells.push(ArgSpell::ShortSep);
                                     members += 1;
                                     j += 1;
                                 }
@@ -917,26 +972,25 @@ pub fn render(units: &[U], rng: &mut Rng, style: SpellStyle) -> Line {
                         }
                     }
                     if members >= 2 {
-                        line.argv.push(body);
-                        line.origin.push(org(Role::Cluster));
+                        let mut items = vec![body];
+                        let mut roles = vec![(i, Role::Cluster)];
                         if let Some(t) = tail {
-                            line.argv.push(t);
-                            line.origin.push(Origin {
-                                unit: j - 1,
-                                role: Role::ArgValue,
-                                depth: u.depth,
-                                block: u.block,
-                                after_dd: u.after_dd,
-                            });
+                            items.push(t);
+                            roles.push((j - 1, Role::ArgValue));
                         }
-                        line.clusters += 1;
+                        chunks.push(Chunk {
+                            lo: i,
+                            hi: j,
+                            items,
+                            roles,
+                            spells,
+                            cluster: true,
+                        });
                         i = j;
                         continue;
                     }
-                    // a one-member "cluster" is just the short flag; undo a recorded spelling
                     if members == 1 {
-                        line.argv.push(body);
-                        line.origin.push(org(Role::Flag));
+                        chunks.push(single(vec![body], vec![Role::Flag], vec![]));
                         i += 1;
                         continue;
                     }
@@ -953,23 +1007,25 @@ pub fn render(units: &[U], rng: &mut Rng, style: SpellStyle) -> Line {
                         }
                     }
                 };
-                line.argv.push(text.into_bytes());
-                line.origin.push(org(Role::Flag));
+                chunks.push(single(vec![text.into_bytes()], vec![Role::Flag], vec![]));
                 i += 1;
             }
             UKind::Arg {
                 names,
                 value,
                 adjacent_only,
-                ..
+                item,
             } => {
-                let sps = allowed_spells(names, value, *adjacent_only);
+                let mut sps = allowed_spells(names, value, *adjacent_only);
+                if no_multi(*item) {
+                    sps.retain(|s| *s != ArgSpell::ShortJoined);
+                }
                 let sp = match style {
                     SpellStyle::Canonical => {
-                        let pref = if !names.longs.is_empty() {
-                            [ArgSpell::LongSep, ArgSpell::LongEq]
-                        } else {
+                        let pref = if names.longs.is_empty() {
                             [ArgSpell::ShortSep, ArgSpell::ShortEq]
+                        } else {
+                            [ArgSpell::LongSep, ArgSpell::LongEq]
                         };
                         if sps.contains(&pref[0]) {
                             pref[0]
@@ -1010,22 +1066,64 @@ pub fn render(units: &[U], rng: &mut Rng, style: SpellStyle) -> Line {
                     ),
                 };
                 let items = spell_arg(s, l, value, sp);
-                line.spells.push(sp);
-                if items.len() == 2 {
-                    let mut it = items.into_iter();
-                    line.argv.push(it.next().unwrap());
-                    line.origin.push(org(Role::ArgName));
-                    line.argv.push(it.next().unwrap());
-                    line.origin.push(org(Role::ArgValue));
+                let roles = if items.len() == 2 {
+                    vec![Role::ArgName, Role::ArgValue]
                 } else {
-                    line.argv.extend(items);
-                    line.origin.push(org(Role::ArgJoined));
-                }
+                    vec![Role::ArgJoined]
+                };
+                chunks.push(single(items, roles, vec![sp]));
                 i += 1;
             }
         }
     }
+    chunks
+}
+
+/// Concatenate chunks into an argument vector
+pub fn assemble(units: &[U], chunks: &[Chunk]) -> Line {
+    let mut line = Line::default();
+    for c in chunks {
+        for (item, (unit, role)) in c.items.iter().zip(c.roles.iter()) {
+            let u = &units[*unit];
+            line.argv.push(item.clone());
+            line.origin.push(Origin {
+                unit: *unit,
+                role: *role,
+                depth: u.depth,
+                block: u.block,
+                after_dd: u.after_dd,
+            });
+        }
+        line.spells.extend(c.spells.iter().copied());
+        line.clusters += usize::from(c.cluster);
+    }
     line
+}
+
+/// `base` with the chunks covering `sub.lo..sub.hi` replaced by `sub`
+pub fn substitute(base: &[Chunk], sub: &Chunk) -> Vec<Chunk> {
+    let mut out = Vec::new();
+    let mut placed = false;
+    for c in base {
+        if c.hi <= sub.lo || c.lo >= sub.hi {
+            out.push(c.clone());
+        } else if !placed {
+            out.push(sub.clone());
+            placed = true;
+        }
+    }
+    out
+}
+
+/// Turn ordered units into an argument vector
+pub fn render(units: &[U], rng: &mut Rng, style: SpellStyle) -> Line {
+    let chunks = render_chunks(units, rng, style);
+    assemble(units, &chunks)
+}
+
+pub fn render_cfg(units: &[U], rng: &mut Rng, style: SpellStyle, avoid_multi: &[Id]) -> Line {
+    let chunks = render_chunks_cfg(units, rng, style, avoid_multi);
+    assemble(units, &chunks)
 }
 
 /// Convenience: one sentence of the spec in the requested style
@@ -1036,8 +1134,32 @@ pub fn sentence(
     dd: DashDash,
     spell: SpellStyle,
 ) -> Option<(Deriv, Vec<U>, Line)> {
+    sentence_cfg(spec, g, order, dd, spell, &[])
+}
+
+pub fn sentence_cfg(
+    spec: &Spec,
+    g: &mut Gen,
+    order: OrderStyle,
+    dd: DashDash,
+    spell: SpellStyle,
+    avoid_multi: &[Id],
+) -> Option<(Deriv, Vec<U>, Line)> {
     let d = derive(spec, g)?;
     let units = order_units(&d.atoms, g.rng, order, dd)?;
-    let line = render(&units, g.rng, spell);
+    let line = render_cfg(&units, g.rng, spell, avoid_multi);
     Some((d, units, line))
+}
+
+/// visit every argument / word atom (recursively) with mutable access to its value
+pub fn for_each_value_mut(atoms: &mut [Atom], f: &mut dyn FnMut(Id, bool, &mut Vec<u8>)) {
+    for a in atoms {
+        match a {
+            Atom::Arg { item, value, .. } => f(*item, true, value),
+            Atom::Word { item, value, .. } => f(*item, false, value),
+            Atom::Block { atoms, .. } => for_each_value_mut(atoms, f),
+            Atom::Cmd { inner, .. } => for_each_value_mut(inner, f),
+            Atom::Flag { .. } => {}
+        }
+    }
 }
